@@ -40,7 +40,8 @@ def run(ctx):
     need = ["sess:set", "sess:set-empty", "sess:set-rejected", "sess:duplicate-prefix-in-set", "sess:drop-idle",
             "sess:drop-after-k", "sess:drop-mid-message", "sess:reconnected", "sess:stable", "sess:closed", "sess:messages",
             "sess:close-in-backoff-refusals", "sess:set-right-after-drop", "sess:cap-flip-on-off", "sess:cap-flip-off-on",
-            "sess:capflip-ebgp-updates-after-flip", "sess:ebgp-updates-with-connection-width", "step:abort", "step:abort-with-pending", "step:Set", "step:Set(invalid)", "step:Close"]
+            "sess:capflip-ebgp-updates-after-flip", "sess:ebgp-updates-with-connection-width",
+            "sess:hold=0", "sess:hold=nil", "sess:close-in-handshake", "sess:set-during-write", "sess:set-during-write-messages", "step:abort", "step:abort-with-pending", "step:Set", "step:Set(invalid)", "step:Close"]
     if not thorough:
         need = [k for k in need if k not in ("sess:closed",)] + []
     if cases and any(stats.get(k, 0) == 0 for k in need):
@@ -74,7 +75,9 @@ def run(ctx):
                "invalid Set, peer drop idle / after k UPDATEs / mid-message / during handshake, wrong AS number, sleeps 0-30ms}, iBGP/eBGP, 2- and 4-octet AS numbers, "
                "the peer's 4-octet-AS capability is drawn anew for every connection (on->off and off->on flips inside one session); "
                "then either Close or leave the connection alone and wait for convergence; plus fixed schedules: MyASN=65536 vs 2-octet peer, Close during backoff, "
-               "capability flip on->off / off->on x eBGP / iBGP; "
+               "capability flip on->off / off->on x eBGP / iBGP, configured hold time 0 / nil (every schedule draws the hold time from {nil,0,3,30,90,7,4.5,65535 s} and the peer checks the session's OPEN field by field), "
+               "Close() landing inside a connection attempt (peer delays its OPEN: after accept, after the peer's OPEN, during the reconnect after a flap), "
+               "Set() calls inside the sender's write window (real sendUpdates/Set on a net.Pipe connection whose peer stops reading mid-flush); "
                "plus white-box step cases (abort / Set / invalid Set / Close on hand-built session values, state before/after compared with the model step); "
                "non-trivial = trace of at least 6 events or a white-box step; distinct by content",
                [c["in"] for c in cases[1:3]], search=search)
